@@ -134,7 +134,8 @@ impl Path {
 
         let mut components = Vec::new();
 
-        for i in 0..self.components.len() - upward_moves {
+        // (more `^` than there are components: nothing is kept, as in the reference runtime)
+        for i in 0..self.components.len().saturating_sub(upward_moves) {
             components.push(self.components.get(i).unwrap().clone());
         }
 
